@@ -8,6 +8,11 @@ func (e *BinaryOpExpr) Check(ctx *CheckCtx) error {
 		return err
 	}
 	e.tryRewriteExpr(ctx)
+	// A name may now refer to the field this expression defines (select a + 1 as a):
+	// refuse it before the type rules below recurse through the reference forever
+	if ref := findFieldReferenceCycle(e, map[string]bool{}); ref != nil {
+		return NewSyntaxError(ref.GetPos(), "Field %s is defined in terms of itself", ref.Name.Data)
+	}
 	switch e.Op {
 	case And, Or, KWAnd, KWOr:
 		return e.checkWithAndOr(ctx)
